@@ -62,15 +62,33 @@ pub fn main(args: &[String]) -> i32 {
                 }
             }
         }
-        // sequential results and step counts, each on a regex of its own
+        // sequential results and step counts, each on a regex of its own. The expected sequence is
+        // built from *fresh* searches - the first match at or after a cursor that moves as the
+        // iterator's does - so that it cannot depend on anything searched before, not even on the
+        // earlier matches of the same iterator.
         let mut expect: Vec<Vec<MatchRec>> = Vec::new();
         let mut steps: Vec<u64> = Vec::new();
         for (text, start) in &queries {
             let fresh = compile(&pat, fl, false).unwrap();
             regress::verif::begin(false, 0, u64::MAX);
-            let r = search(&fresh, text, *start);
+            let _ = search(&fresh, text, *start);
             steps.push(regress::verif::end().steps);
-            expect.push(r);
+            let mut seq: Vec<MatchRec> = Vec::new();
+            let mut cur = *start;
+            while cur <= text.len() && seq.len() <= text.len() + 2 {
+                let one = compile(&pat, fl, false).unwrap();
+                let Some(m) = one.find_from(text, cur).next() else { break };
+                cur = if m.range.is_empty() {
+                    match text[m.range.end..].chars().next() {
+                        Some(ch) => m.range.end + ch.len_utf8(),
+                        None => text.len() + 1,
+                    }
+                } else {
+                    m.range.end
+                };
+                seq.push(byte_rec(&m));
+            }
+            expect.push(seq);
         }
         let _ = &reference;
         let nq = queries.len();
@@ -192,6 +210,51 @@ pub fn main(args: &[String]) -> i32 {
                     Err(_) => {
                         if wrong.len() < 6 {
                             wrong.push(json!({"what": "a searching thread panicked (stress)"}));
+                        }
+                    }
+                }
+            }
+        }
+        // 2b. sustained concurrency: eight threads run all queries over and over on one Regex
+        {
+            let shared = Arc::new(compile(&pat, fl, false).unwrap());
+            let qs = Arc::new(queries.clone());
+            let ex = Arc::new(expect.clone());
+            let barrier = Arc::new(Barrier::new(8));
+            let rounds = (trials * 4).max(8);
+            let mut hs = Vec::new();
+            for t in 0..8usize {
+                let (re, qs, ex, b) = (shared.clone(), qs.clone(), ex.clone(), barrier.clone());
+                hs.push(std::thread::spawn(move || {
+                    b.wait();
+                    let mut bad: Option<(usize, Vec<MatchRec>)> = None;
+                    let mut n = 0u64;
+                    for r in 0..rounds {
+                        for k in 0..qs.len() {
+                            let q = (k + t * 3 + r) % qs.len();
+                            let out = search(&re, &qs[q].0, qs[q].1);
+                            n += 1;
+                            if out != ex[q] && bad.is_none() {
+                                bad = Some((q, out));
+                            }
+                        }
+                    }
+                    (n, bad)
+                }));
+            }
+            for h in hs {
+                match h.join() {
+                    Ok((n, bad)) => {
+                        stress += n;
+                        if let Some((q, out)) = bad {
+                            if wrong.len() < 6 {
+                                wrong.push(json!({"what": "concurrent result differs from sequential (sustained)", "query": [queries[q].0, queries[q].1], "expected": expect[q], "got": out}));
+                            }
+                        }
+                    }
+                    Err(_) => {
+                        if wrong.len() < 6 {
+                            wrong.push(json!({"what": "a searching thread panicked (sustained stress)"}));
                         }
                     }
                 }
